@@ -15,14 +15,18 @@ import pathspec
 from .__version__ import ascmhl_folder_name
 
 
-def post_order_lexicographic(top: str, ignore_pathspec: pathspec.PathSpec = None):
+def post_order_lexicographic(top: str, ignore_pathspec: pathspec.PathSpec = None, root: str = None):
     """
     iterates a file system in the order necessary to generate composite tree hashes, bypassing ignored paths.
 
     :param top: the directory being iterated
     :param ignore_pathspec: the pathspec of ignore patterns to match file exclusions against
+    :param root: the folder the ignore patterns are relative to (defaults to top), so that the names of folders
+    above it (e.g. a parent folder called "ascmhl") can never match a pattern
     :return: yields results in folder chunks, in the order necessary for composite directory hashes
     """
+    if root is None:
+        root = top
     # create a sorted list of our immediate children
     names = os.listdir(top)
     names.sort()
@@ -31,7 +35,7 @@ def post_order_lexicographic(top: str, ignore_pathspec: pathspec.PathSpec = None
     children = []
     for name in names:
         file_path = os.path.join(top, name)
-        if ignore_pathspec and ignore_pathspec.match_file(file_path):
+        if ignore_pathspec and ignore_pathspec.match_file(os.path.relpath(file_path, root)):
             if os.path.basename(os.path.normpath(file_path)) != ascmhl_folder_name:
                 logger.verbose(f"ignoring filepath {file_path}")
             continue
@@ -43,7 +47,7 @@ def post_order_lexicographic(top: str, ignore_pathspec: pathspec.PathSpec = None
         if is_dir:
             path = join(top, name)
             if not os.path.islink(path):
-                for x in post_order_lexicographic(path, ignore_pathspec):
+                for x in post_order_lexicographic(path, ignore_pathspec, root):
                     yield x
 
     # now that all children have been traversed, yield the top (current) directory and all of it's sorted children.
